@@ -486,44 +486,20 @@ def ParkSim (isLimit : ε → Bool) (a b : σ × Option ε) : Prop :=
 @[simp] theorem firstSome_some {β : Type} (a : β) (b : Option β) : firstSome (some a) b = some a := rfl
 @[simp] theorem firstSome_none {β : Type} (b : Option β) : firstSome none b = b := by cases b <;> rfl
 
-theorem parkT_step_none (t : Trans σ ε ρ) (parks : σ → Except ε ρ → Option ε) (fp : σ → Option ε) (drop : Bool)
-    (a : σ) (pa : Option ε) (x : Except ε ρ) (h : firstSome pa (parks a x) = none) :
-    (parkT t parks fp drop).step (a, pa) x = (((t.step a x).1, none), (t.step a x).2) := by
-  simp only [parkT, h]
-
-theorem parkT_step_some_nil (t : Trans σ ε ρ) (parks : σ → Except ε ρ → Option ε) (fp : σ → Option ε) (drop : Bool)
-    (a : σ) (pa : Option ε) (x : Except ε ρ) (e : ε) (h : firstSome pa (parks a x) = some e)
-    (ho : (t.step a x).2 = []) :
-    (parkT t parks fp drop).step (a, pa) x = (((t.step a x).1, some e), []) := by
-  simp only [parkT, h, ho]
-
-theorem parkT_step_some_cons (t : Trans σ ε ρ) (parks : σ → Except ε ρ → Option ε) (fp : σ → Option ε) (drop : Bool)
-    (a : σ) (pa : Option ε) (x : Except ε ρ) (e : ε) (y : Except ε ρ) (ys : Stream ε ρ)
-    (h : firstSome pa (parks a x) = some e) (ho : (t.step a x).2 = y :: ys) :
-    (parkT t parks fp drop).step (a, pa) x = (((t.step a x).1, none), .error e :: ys) := by
-  simp only [parkT, h, ho]
-
-/-- an operator that never says `done` and yields nothing at the end owes a pending failure as its
-    next item, whatever input follows -/
-theorem parkT_owes (t : Trans σ ε ρ) (hnd : ∀ st, t.done st = false) (hfl : ∀ st, t.flush st = [])
-    (parks : σ → Except ε ρ → Option ε) (e : ε) :
-    ∀ (xs : Stream ε ρ) (st : σ), cut ((parkT t parks noFlushParks false).run (st, some e) xs) = [.error e] := by
-  intro xs
-  induction xs with
+/-- an operator that never says `done` and answers an `Err` item with that error first owes a
+    pending failure as its very next item, whatever input follows -/
+theorem parkT_owes (t : Trans σ ε ρ) (hnd : ∀ st, t.done st = false)
+    (hfwd : ∀ st e, ∃ rest, (t.step st (.error e)).2 = .error e :: rest)
+    (parks : σ → Except ε ρ → Option ε) (fp : σ → Option ε) (e : ε) (xs : Stream ε ρ) (st : σ) :
+    cut ((parkT t parks fp false).run (st, some e) xs) = [.error e] := by
+  obtain ⟨rest, he⟩ := hfwd st e
+  cases xs with
   | nil =>
-    intro st
     rw [Trans.run_nil]
-    simp [parkT, hnd st, hfl st, cut]
-  | cons x xs ih =>
-    intro st
-    rw [parkT_run_cons _ _ _ _ _ _ _ _ (hnd st)]
-    cases hout : (t.step st x).2 with
-    | nil =>
-      rw [parkT_step_some_nil _ _ _ _ _ _ _ e (by simp) hout]
-      simpa using ih _
-    | cons y ys =>
-      rw [parkT_step_some_cons _ _ _ _ _ _ _ e y ys (by simp) hout]
-      simp [cut]
+    simp [parkT, hnd st, he, cut]
+  | cons x xs =>
+    rw [parkT_run_cons _ _ _ _ _ _ _ _ (hnd st), parkT_step_pending]
+    simp [he, cut]
 
 theorem LimRel.nil_right (isLimit : ε → Bool) (a : Stream ε ρ) (h : LimRel isLimit a []) :
     a = [] ∨ ∃ e rest, a = .error e :: rest ∧ isLimit e = true := by
@@ -542,7 +518,7 @@ theorem LimRel.nil_right (isLimit : ε → Bool) (a : Stream ε ρ) (h : LimRel 
     obtain ⟨_, ta, rfl⟩ := of_cut_eq_append_error a [] e hc
     exact ⟨e, ta, rfl, hl⟩
 
-/-- streaming operators (Project, Unwind): never `done`, nothing at the end -/
+/-- streaming operators (Project, Unwind, ProcedureCall): never `done`, nothing at the end -/
 theorem parkT_stream_stepRel (isLimit : ε → Bool) (tL tU : Trans σ ε ρ)
     (parksL parksU : σ → Except ε ρ → Option ε)
     (hndL : ∀ st, tL.done st = false) (hndU : ∀ st, tU.done st = false)
@@ -550,93 +526,93 @@ theorem parkT_stream_stepRel (isLimit : ε → Bool) (tL tU : Trans σ ε ρ)
     (hst : ∀ st x, (tL.step st x).1 = (tU.step st x).1)
     (hstep : ∀ st x, parksL st x = none → LimRel isLimit (tL.step st x).2 (tU.step st x).2 ∧
       (allOk (tL.step st x).2 = true → (tL.step st x).2 = (tU.step st x).2))
-    (hfwd : ∀ st e, ∃ rest, (tL.step st (.error e)).2 = .error e :: rest)
+    (hfwdL : ∀ st e, ∃ rest, (tL.step st (.error e)).2 = .error e :: rest)
+    (hfwdU : ∀ st e, ∃ rest, (tU.step st (.error e)).2 = .error e :: rest)
     (hperr : ∀ st e, parksL st (.error e) = none)
     (hpark : ∀ st x, parksL st x = parksU st x ∨ ∃ e, parksL st x = some e ∧ isLimit e = true) :
     StepRel isLimit (ParkSim isLimit) (parkT tL parksL noFlushParks false) (parkT tU parksU noFlushParks false) := by
-  -- what the two sides have to report with a step
-  have hf : ∀ (a : σ) (pa pb : Option ε) (x : Except ε ρ), (pa = pb ∨ ∃ e, pa = some e ∧ isLimit e = true) →
-      firstSome pa (parksL a x) = firstSome pb (parksU a x) ∨
-        ∃ e, firstSome pa (parksL a x) = some e ∧ isLimit e = true := by
-    intro a pa pb x hp
-    cases pa with
-    | some e =>
-      rcases hp with h | ⟨e', he', hl⟩
-      · left; rw [← h]; simp
-      · right; injection he' with he'; subst he'; exact ⟨e, by simp, hl⟩
-    | none =>
-      have hpb : pb = none := by
-        rcases hp with h | ⟨e', he', _⟩
-        · exact h.symm
-        · cases he'
-      subst hpb
-      simpa using hpark a x
   refine ⟨fun a b h => by simp [parkT, hndL, hndU], ?_, ?_, ?_⟩
   · -- step
     rintro ⟨a, pa⟩ ⟨b, pb⟩ x ⟨hab, hp⟩
     simp only at hab hp
     subst hab
-    cases hfL : firstSome pa (parksL a x) with
-    | none =>
-      have hpa : pa = none ∧ parksL a x = none := by
-        cases pa with
-        | some e => simp at hfL
-        | none => exact ⟨rfl, by simpa using hfL⟩
-      have hfU : firstSome pb (parksU a x) = none := by
-        rcases hf a pa pb x hp with h | ⟨e, he, _⟩
-        · rw [← h]; exact hfL
-        · rw [hfL] at he; cases he
-      obtain ⟨hrel, heq⟩ := hstep a x hpa.2
-      rw [parkT_step_none _ _ _ _ _ _ _ hfL, parkT_step_none _ _ _ _ _ _ _ hfU]
-      left
-      exact ⟨hrel, fun ho => ⟨heq ho, hst a x, Or.inl rfl⟩⟩
+    cases pa with
     | some e =>
-      have hfU : firstSome pb (parksU a x) = some e ∨ isLimit e = true := by
-        rcases hf a pa pb x hp with h | ⟨e', he', hl⟩
-        · left; rw [← h]; exact hfL
-        · right; rw [hfL] at he'; injection he' with he'; subst he'; exact hl
-      cases hoL : (tL.step a x).2 with
-      | nil =>
-        rw [parkT_step_some_nil _ _ _ _ _ _ _ e hfL hoL]
-        by_cases hl : isLimit e = true
-        · -- nothing now, a limit error is owed
-          right; right
-          exact ⟨rfl, e, fun xs => parkT_owes tL hndL hflL parksL e xs _, Or.inl hl⟩
-        · have hfu : firstSome pb (parksU a x) = some e := by
-            rcases hfU with h | h
-            · exact h
-            · exact absurd h hl
-          cases hoU : (tU.step a x).2 with
-          | nil =>
-            rw [parkT_step_some_nil _ _ _ _ _ _ _ e hfu hoU]
-            left
-            exact ⟨.refl _ _, fun _ => ⟨rfl, hst a x, Or.inl rfl⟩⟩
-          | cons z zs =>
-            rw [parkT_step_some_cons _ _ _ _ _ _ _ e z zs hfu hoU]
-            right; right
-            exact ⟨rfl, e, fun xs => parkT_owes tL hndL hflL parksL e xs _, Or.inr ⟨zs, rfl⟩⟩
-      | cons y ys =>
-        rw [parkT_step_some_cons _ _ _ _ _ _ _ e y ys hfL hoL]
-        by_cases hl : isLimit e = true
-        · left; exact ⟨LimRel.limit_error isLimit e _ _ hl, fun h => by simp at h⟩
-        · have hfu : firstSome pb (parksU a x) = some e := by
-            rcases hfU with h | h
-            · exact h
-            · exact absurd h hl
-          cases hoU : (tU.step a x).2 with
-          | nil =>
-            rw [parkT_step_some_nil _ _ _ _ _ _ _ e hfu hoU]
-            right; left
-            exact ⟨[], e, ys, rfl, rfl, rfl, fun xs => parkT_owes tU hndU hflU parksU e xs _⟩
-          | cons z zs =>
-            rw [parkT_step_some_cons _ _ _ _ _ _ _ e z zs hfu hoU]
-            left
-            exact ⟨Or.inl (by simp [cut]), fun h => by simp at h⟩
+      -- the pending failure arrives with this pull on the limited side
+      obtain ⟨rL, hL⟩ := hfwdL a e
+      rw [parkT_step_pending, hL]
+      left
+      by_cases hl : isLimit e = true
+      · exact ⟨LimRel.limit_error isLimit e _ _ hl, fun h => by simp at h⟩
+      · have hpb : pb = some e := by
+          rcases hp with h | ⟨e', he', hl'⟩
+          · exact h.symm
+          · injection he' with he'; subst he'; exact absurd hl' hl
+        subst hpb
+        obtain ⟨rU, hU⟩ := hfwdU a e
+        rw [parkT_step_pending, hU]
+        exact ⟨Or.inl (by simp [cut]), fun h => by simp at h⟩
+    | none =>
+      have hpb : pb = none := by
+        rcases hp with h | ⟨e', he', _⟩
+        · exact h.symm
+        · cases he'
+      subst hpb
+      cases hpL : parksL a x with
+      | none =>
+        have hpU : parksU a x = none := by
+          rcases hpark a x with h | ⟨e, he, _⟩
+          · rw [← h]; exact hpL
+          · rw [hpL] at he; cases he
+        obtain ⟨hrel, heq⟩ := hstep a x hpL
+        rw [parkT_step_none _ _ _ _ _ _ hpL, parkT_step_none _ _ _ _ _ _ hpU]
+        left
+        exact ⟨hrel, fun ho => ⟨heq ho, hst a x, Or.inl rfl⟩⟩
+      | some e =>
+        have hfU : parksU a x = some e ∨ isLimit e = true := by
+          rcases hpark a x with h | ⟨e', he', hl⟩
+          · left; rw [← h]; exact hpL
+          · right; rw [hpL] at he'; injection he' with he'; subst he'; exact hl
+        cases hoL : (tL.step a x).2 with
+        | nil =>
+          rw [parkT_step_some_nil _ _ _ _ _ _ e hpL hoL]
+          by_cases hl : isLimit e = true
+          · right; right
+            exact ⟨rfl, e, fun xs => parkT_owes tL hndL hfwdL parksL _ e xs _, Or.inl hl⟩
+          · have hfu : parksU a x = some e := by
+              rcases hfU with h | h
+              · exact h
+              · exact absurd h hl
+            cases hoU : (tU.step a x).2 with
+            | nil =>
+              rw [parkT_step_some_nil _ _ _ _ _ _ e hfu hoU]
+              left
+              exact ⟨.refl _ _, fun _ => ⟨rfl, hst a x, Or.inl rfl⟩⟩
+            | cons z zs =>
+              rw [parkT_step_some_cons _ _ _ _ _ _ e z zs hfu hoU]
+              right; right
+              exact ⟨rfl, e, fun xs => parkT_owes tL hndL hfwdL parksL _ e xs _, Or.inr ⟨zs, rfl⟩⟩
+        | cons y ys =>
+          rw [parkT_step_some_cons _ _ _ _ _ _ e y ys hpL hoL]
+          by_cases hl : isLimit e = true
+          · left; exact ⟨LimRel.limit_error isLimit e _ _ hl, fun h => by simp at h⟩
+          · have hfu : parksU a x = some e := by
+              rcases hfU with h | h
+              · exact h
+              · exact absurd h hl
+            cases hoU : (tU.step a x).2 with
+            | nil =>
+              rw [parkT_step_some_nil _ _ _ _ _ _ e hfu hoU]
+              right; left
+              exact ⟨[], e, ys, rfl, rfl, rfl, fun xs => parkT_owes tU hndU hfwdU parksU _ e xs _⟩
+            | cons z zs =>
+              rw [parkT_step_some_cons _ _ _ _ _ _ e z zs hfu hoU]
+              left
+              exact ⟨Or.inl (by simp [cut]), fun h => by simp at h⟩
   · -- flush
     rintro ⟨a, pa⟩ ⟨b, pb⟩ ⟨hab, hp⟩
     simp only at hab hp
     subst hab
-    simp only [parkT, noFlushParks, hflL, hflU]
     cases pa with
     | none =>
       have hpb : pb = none := by
@@ -644,30 +620,39 @@ theorem parkT_stream_stepRel (isLimit : ε → Bool) (tL tU : Trans σ ε ρ)
         · exact h.symm
         · cases he'
       subst hpb
+      simp only [parkT, noFlushParks, hflL, hflU]
       exact .refl _ _
     | some e =>
-      rcases hp with h | ⟨e', he', hl⟩
-      · rw [← h]; exact .refl _ _
-      · injection he' with he'; subst he'
-        simp only [firstSome_some]
-        exact LimRel.limit_error isLimit _ _ _ hl
+      obtain ⟨rL, hL⟩ := hfwdL a e
+      simp only [parkT, Bool.false_eq_true, if_false, hL]
+      by_cases hl : isLimit e = true
+      · exact LimRel.limit_error isLimit e _ _ hl
+      · have hpb : pb = some e := by
+          rcases hp with h | ⟨e', he', hl'⟩
+          · exact h.symm
+          · injection he' with he'; subst he'; exact absurd hl' hl
+        subst hpb
+        obtain ⟨rU, hU⟩ := hfwdU a e
+        simp only [hU]
+        exact Or.inl (by simp [cut])
   · -- an `Err` item
     rintro ⟨a, pa⟩ ⟨b, pb⟩ e ⟨hab, hp⟩ _
     simp only at hab hp
     subst hab
-    obtain ⟨rest, he⟩ := hfwd a e
     cases pa with
     | none =>
-      rw [parkT_step_none _ _ _ _ _ _ _ (by simp [hperr a e])]
+      obtain ⟨rest, he⟩ := hfwdL a e
+      rw [parkT_step_none _ _ _ _ _ _ (hperr a e)]
       exact ⟨e, rest, he, Or.inl rfl⟩
     | some e2 =>
-      rw [parkT_step_some_cons _ _ _ _ _ _ _ e2 _ rest (by simp) he]
+      obtain ⟨rest, he⟩ := hfwdL a e2
+      rw [parkT_step_pending, he]
       refine ⟨e2, rest, rfl, ?_⟩
       rcases hp with h | ⟨e', he', hl⟩
       · right; right
         intro xs
         rw [← h]
-        exact parkT_owes tU hndU hflU parksU e2 xs _
+        exact parkT_owes tU hndU hfwdU parksU _ e2 xs _
       · injection he' with he'; subst he'; exact Or.inr (Or.inl hl)
 
 /-- blocking operators (OrderBy, Aggregate): failures are parked only by the final work -/
@@ -684,14 +669,14 @@ theorem parkT_block_stepRel (isLimit : ε → Bool) (tL tU : Trans σ ε ρ) (h0
     subst hpa
     obtain ⟨hrel, heq⟩ := h0.step a x
     left
-    rw [parkT_step_none _ _ _ _ _ _ _ (by simp), parkT_step_none _ _ _ _ _ _ _ (by simp)]
+    rw [parkT_step_none _ _ _ _ _ _ rfl, parkT_step_none _ _ _ _ _ _ rfl]
     refine ⟨hrel, fun ho => ?_⟩
     have := heq ho
     exact ⟨by rw [this], by rw [this], rfl⟩
   · rintro ⟨a, pa⟩ _ ⟨rfl, hpa⟩
     simp only at hpa
     subst hpa
-    simp only [parkT, firstSome_none]
+    simp only [parkT]
     rcases hfp a with h | ⟨e, he, hl⟩
     · cases hL : fpL a with
       | none =>
@@ -707,7 +692,7 @@ theorem parkT_block_stepRel (isLimit : ε → Bool) (tL tU : Trans σ ε ρ) (h0
     simp only at hpa
     subst hpa
     obtain ⟨e', rest, he, hl⟩ := h0.fwd a e hd
-    rw [parkT_step_none _ _ _ _ _ _ _ (by simp)]
+    rw [parkT_step_none _ _ _ _ _ _ rfl]
     exact ⟨e', rest, he, hl.elim Or.inl (fun x => Or.inr (Or.inl x))⟩
 
 theorem findSome_lim (isLimit : ε → Bool) {β : Type} (fL fU : β → Option ε)
@@ -778,7 +763,7 @@ theorem runL_limRel (isLimit : ε → Bool) (S : Sem χ ρ ν ε κ α) (Q : Qui
       (projectT S L env projs) (projectT S LimEnv.unlimited env projs)
       (rowParks S L env (projs.map (·.2))) (rowParks S LimEnv.unlimited env (projs.map (·.2)))
       (fun _ => rfl) (fun _ => rfl)
-      (fun _ => rfl) (fun _ => rfl) (fun _ _ => rfl) ?_ (fun _ e => ⟨[], rfl⟩) (fun _ _ => rfl)
+      (fun _ => rfl) (fun _ => rfl) (fun _ _ => rfl) ?_ (fun _ e => ⟨[], rfl⟩) (fun _ e => ⟨[], rfl⟩) (fun _ _ => rfl)
       (fun st x => rowParks_rel isLimit S L hS env _ st x)).run _ _ ⟨rfl, Or.inl rfl⟩ _ _ (ih _ _))
     intro st x hnp
     cases x with
@@ -805,7 +790,7 @@ theorem runL_limRel (isLimit : ε → Bool) (S : Sem χ ρ ν ε κ α) (Q : Qui
       (flatMapT (unwindRow S L site env e alias)) (flatMapT (unwindRow S LimEnv.unlimited site env e alias))
       (rowParks S L env [e]) (rowParks S LimEnv.unlimited env [e])
       (fun _ => rfl) (fun _ => rfl)
-      (fun _ => rfl) (fun _ => rfl) (fun _ x => by cases x <;> rfl) ?_ (fun _ e => ⟨[], rfl⟩) (fun _ _ => rfl)
+      (fun _ => rfl) (fun _ => rfl) (fun _ x => by cases x <;> rfl) ?_ (fun _ e => ⟨[], rfl⟩) (fun _ e => ⟨[], rfl⟩) (fun _ _ => rfl)
       (fun st x => rowParks_rel isLimit S L hS env _ st x)).run _ _ ⟨rfl, Or.inl rfl⟩ _ _ (ih _ _))
     intro st x hnp
     cases x with
